@@ -8,5 +8,5 @@ from trashcli.parse_trashinfo.parser_error import ParseError
 def parse_path(contents):
     for line in contents.split('\n'):
         if line.startswith('Path='):
-            return unquote(line[len('Path='):])
+            return unquote(line[len('Path='):], errors='surrogateescape')
     raise ParseError('Unable to parse Path')
